@@ -95,6 +95,9 @@ func (w *Worker) rtIntrinsic(name string, args []Val) (Val, bool) {
 	case "vExpectPanic":
 		f := args[0].(*Closure)
 		return ts.Bool(w.expectPanic(f)), true
+	case "vRandConcrete":
+		w.randConcrete = args[0].(*Term).isTrue()
+		return nil, true
 	case "vTier":
 		return ts.Const(64, uint64(tierVal)), true
 	case "vSymbolic":
